@@ -330,6 +330,7 @@ private:
 		{
 			bool reinsert_into_bucket = !slb->available;
 			FRG_ASSERT(slb->num_reserved);
+			slb->num_reserved--;
 
 			FRG_ASSERT(!slb->available || slb->contains(slb->available));
 			object->link = slb->available;
